@@ -290,7 +290,51 @@ impl<'a> ExpressionEvaluator<'a> {
                     }
                 }
             }
-            _ => unreachable!("Should not reach here when calling the evaluator"),
+            BoundExpression::Case {
+                operand,
+                when_then,
+                else_expr,
+                ..
+            } => {
+                // Simple CASE compares the operand with each WHEN value (a NULL on either side never
+                // matches); searched CASE takes the first WHEN whose condition is TRUE (not FALSE, not
+                // unknown). Only the chosen branch is evaluated. Without a match: ELSE, or NULL.
+                let operand = match operand {
+                    Some(o) => Some(self.evaluate_as_single_value(o)?),
+                    None => None,
+                };
+                for (when, then) in when_then {
+                    let w = self.evaluate_as_single_value(when)?;
+                    let hit = match &operand {
+                        Some(o) => {
+                            !matches!(o, DataType::Null) && !matches!(w, DataType::Null) && *o == w
+                        }
+                        None => match w {
+                            DataType::Bool(Bool(b)) => b,
+                            DataType::Null => false,
+                            other => {
+                                return Err(EvaluationError::TypeError(
+                                    TypeSystemError::UnexpectedDataType(other.kind()),
+                                ));
+                            }
+                        },
+                    };
+                    if hit {
+                        return Ok(vec![self.evaluate_as_single_value(then)?]);
+                    }
+                }
+                match else_expr {
+                    Some(e) => Ok(vec![self.evaluate_as_single_value(e)?]),
+                    None => Ok(vec![DataType::Null]),
+                }
+            }
+            // An aggregate is computed by the aggregation operator; one that reaches the row evaluator
+            // stands where the grammar has no meaning for it (WHERE COUNT(*) = 3, HAVING over a plan
+            // without the aggregate). `*` is not a value.
+            BoundExpression::Aggregate { .. } => Err(EvaluationError::Unsupported(
+                "aggregate function outside the select list",
+            )),
+            BoundExpression::Star => Err(EvaluationError::Unsupported("* used as a value")),
         }
     }
 
